@@ -2,7 +2,9 @@ import AbtemVerif.Model.Proto
 import AbtemVerif.Model.Noise
 open AbtemVerif AbtemVerif.Proto AbtemVerif.Noise
 
-/- request:
+/- requests:
+     `class <ClassName>` -> `ok <base dims> <rebuildable T/F>`
+     `noiseon <eager|lazy> <ClassName> <seeds> <dose> <dose chunks> <sample chunks> <item chunks> <items>` (base dims from the class)
      `noise <eager|lazy> <seeds: none | s:<int> | d:<ints>> <dose: s:<rat> | d:<rats>> <dose chunks> <sample chunks> <item chunks> <base dims> <items: rats;rats;…>`
    reply: `ok <nd> <ns> <n> <p> <flat counts>` | `err <kind>` | `bad-op`
    The kernels are the tagging kernels `tagK`; eager uses entropy 0, lazy block `t` uses entropy `t`. -/
@@ -24,7 +26,27 @@ def showArr (a : Arr4 Int) : String :=
   let p := (((a.head?.bind List.head?).bind List.head?).map List.length).getD 0
   s!"ok {nd} {ns} {n} {p} {showList showInt (flat4 a)}"
 
+def cls? (s : String) : Option MeasClass :=
+  if s = "Images" then some .images else if s = "DiffractionPatterns" then some .diffractionPatterns
+  else if s = "PolarMeasurements" then some .polarMeasurements else if s = "RealSpaceLineProfiles" then some .realSpaceLineProfiles
+  else if s = "ReciprocalSpaceLineProfiles" then some .reciprocalSpaceLineProfiles
+  else if s = "MeasurementsEnsemble" then some .measurementsEnsemble
+  else if s = "IndexedDiffractionPatterns" then some .indexedDiffractionPatterns else none
+
 def handle : List String → String
+  | ["class", c] =>
+    match cls? c with
+    | some c => s!"ok {c.baseDims} {showBool c.rebuildable}"
+    | none => "bad-op"
+  | ["noiseon", mode, c, sd, ds, cd, cs, ci, items] =>
+    match cls? c, seeds? sd, dose? ds, parseList? parseNat? cd, parseList? parseNat? cs, parseList? parseNat? ci,
+          parseListList? parseRat? items with
+    | some c, some sd, some ds, some cd, some cs, some ci, some items =>
+      let r := if mode = "eager" then noiseOn tagK c sd ds 0 items else lazyNoiseOn tagK c sd ds cd cs ci id items
+      match r with
+      | .ok a => showArr a
+      | .error e => s!"err {e}"
+    | _, _, _, _, _, _, _ => "bad-op"
   | ["noise", mode, sd, ds, cd, cs, ci, bd, items] =>
     match seeds? sd, dose? ds, parseList? parseNat? cd, parseList? parseNat? cs, parseList? parseNat? ci, parseNat? bd,
           parseListList? parseRat? items with
